@@ -326,9 +326,9 @@ def r7(R, repo):
                                                 y.func.id in astu.names_stored(n.target) for y in ast.walk(x.test)) for x in ast.walk(n))]
     R.require(len(loops) == 1, '%s: predicate loop not found' % qual)
     ok, msg, info = patterns.first_match_loop(f, loops[0])
-    R.check(ok, key_of(f, 'first-match loop'), (f, loops[0]), '%s: %s' % (qual, msg))
+    R.judge(ok is not None, ok, key_of(f, 'first-match loop'), (f, loops[0]), '%s: %s' % (qual, msg))
     if ok:
-      R.check(info['else'] == want_else, key_of(f, 'unmatched items: %s' % want_else), (f, loops[0]),
+      R.check(info['else'] == want_else, key_of(f, 'unmatched items: %s' % want_else), (f, loops[0]), evidence=True, msg_fail=
               '%s: items matching no filter must be handled by `%s` in the for-else, found `%s`' % (qual, want_else, info['else']))
   # `...`-must-be-last validation dominates predicate construction in both siblings
   for rel, qual in (('flax/nnx/statelib.py', '_split_state'), (FL, 'filters_to_predicates')):
